@@ -463,6 +463,23 @@ func vfC12Run(cs vfC12Case, c *vlib.Ctx) *vlib.Failure {
 					fdb.inner.Close()
 					return vlib.Failf("running-instance-not-prior-state:"+sig, "%s: the call returned %q but the running wallet no longer shows the prior state: %s", where, out.err, ff.Msg)
 				}
+				// the passphrase in force belongs to the state: after a reported failure the running instance still
+				// unlocks with the prior passphrase and not with the one that never came into force
+				if len(m0.Order) > 0 {
+					w.kmc.Lock()
+					if err := w.kmc.Unlock([]byte(m0.PrivPass)); err != nil {
+						fdb.inner.Close()
+						return vlib.Failf("running-instance-not-prior-state:"+sig, "%s: the call returned %q but the running wallet no longer unlocks with the prior private passphrase: %v", where, out.err, err)
+					}
+					w.kmc.Lock()
+					if m1.PrivPass != m0.PrivPass && m1.PrivPass != "" {
+						if err := w.kmc.Unlock([]byte(m1.PrivPass)); err == nil {
+							fdb.inner.Close()
+							return vlib.Failf("running-instance-not-prior-state:"+sig, "%s: the call returned %q, yet the running wallet unlocks with the passphrase that never came into force", where, out.err)
+						}
+						w.kmc.Lock()
+					}
+				}
 			} else {
 				if ff := eq(w, m1, m1.Unlocked, where); ff != nil {
 					fdb.inner.Close()
@@ -531,7 +548,7 @@ func vfC12Run(cs vfC12Case, c *vlib.Ctx) *vlib.Failure {
 
 var vfC12Spec = vlib.Spec[vfC12Case]{
 	Prop: "C12", Name: "fault-enumeration",
-	Rule: "generated fault-free history prefix (<=10 wallet operations incl. lock state, restarts, several keystores) followed by one target operation of every mutating kind (create, import, next addresses, plot key, remark, private/public passphrase change, delete); a dry run counts the bucket writes W and commits C of the target, then ALL W write errors and 3*C commit faults (commit error, crash before commit, crash after commit) are injected one at a time on a fresh copy of the store (exhaustive per history); oracle: full model equality (C02 comparison) of the restarted wallet with the state before or after, of the running instance with the prior state after a reported error, with the complete effect after a reported success; non-trivial = target operation with >=3 bucket writes (faults strictly inside are then all covered); distinct = distinct case JSON",
+	Rule: "generated fault-free history prefix (<=10 wallet operations incl. lock state, restarts, several keystores) followed by one target operation of every mutating kind (create, import, next addresses, plot key, remark, private/public passphrase change, delete); a dry run counts the bucket writes W and commits C of the target, then ALL W write errors and 3*C commit faults (commit error, crash before commit, crash after commit) are injected one at a time on a fresh copy of the store (exhaustive per history); oracle: full model equality (C02 comparison) of the restarted wallet with the state before or after, of the running instance with the prior state (including which private passphrase unlocks it) after a reported error, with the complete effect after a reported success; non-trivial = target operation with >=3 bucket writes (faults strictly inside are then all covered); distinct = distinct case JSON",
 	Gen:  vfGenC12, Run: vfC12Run,
 }
 
